@@ -24,7 +24,8 @@ GEN_FILE = os.path.join(vlib.GEN, "GenDecisions.v")
 MANIFEST = os.path.join(vlib.CACHE, "gen_decisions_manifest.json")
 BRIDGE = os.path.join(vlib.COQ, "Proofs", "GenBridge.v")
 STATEMENTS = os.path.join(vlib.COQ, "Properties", "Gen.v")
-TRANSLATOR = "harness/src/bin/decisions.rs + harness/src/decisions/*.rs (syn translator, DESIGN 11.7)"
+TRANSLATOR = ("harness/src/bin/decisions.rs + harness/src/decisions/*.rs (syn translator, DESIGN 11.7; scoped.rs: fragments of "
+              "large functions as functions of declared free variables)")
 ALLOWED_SENTENCE = re.compile(r"^(From|Module|End|Inductive|Record|Definition)\b")
 
 
@@ -127,6 +128,33 @@ def _probe(bl, target, timeout=180):
     return True, axioms, ""
 
 
+def _assumptions_of(names):
+    """Print Assumptions of the given theorems of Properties/Gen.v by a fresh coqc -> ({name: [axioms]} or None, output)"""
+    os.makedirs(vlib.GEN, exist_ok=True)
+    path = os.path.join(vlib.GEN, "assump_Gen_%d.v" % os.getpid())
+    with open(path, "w") as f:
+        f.write("From NextestModel Require Import Properties.Gen.\n")
+        for n in names:
+            f.write(f'Goal True. idtac "@@ {n}". exact I. Qed.\nPrint Assumptions {n}.\n')
+    rc, o, e = vlib.sh(["coqc", "-noglob", "-Q", ".", "NextestModel", path], cwd=vlib.COQ, timeout=600)
+    for ext in (".v", ".vo", ".vok", ".vos", ".glob"):
+        q = path[:-2] + ext
+        if os.path.exists(q):
+            os.remove(q)
+    aux = os.path.join(vlib.GEN, "." + os.path.basename(path)[:-2] + ".aux")
+    if os.path.exists(aux):
+        os.remove(aux)
+    if rc != 0:
+        return None, o + e
+    res = {}
+    chunks = re.split(r"@@ ([A-Za-z0-9_']+)\n", o)
+    for i in range(1, len(chunks), 2):
+        body = chunks[i + 1].strip()
+        res[chunks[i]] = [] if "Closed under the global context" in body else \
+            re.findall(r"^([A-Za-z0-9_.']+)\s*:", body, re.M)
+    return res, o + e
+
+
 def check_targets(targets, rg):
     """-> {target: dict(ok, error, theorems, axioms, source)}"""
     bl = blocks()
@@ -152,7 +180,9 @@ def check_targets(targets, rg):
         return res
     ok_all, out = vlib.coq_make(["gen/GenDecisions.vo", "Proofs/GenBridge.vo", "Properties/Gen.vo"], timeout=900)
     if ok_all and rg["ok"]:
-        names, ax, aout = vlib.assumptions("Gen")
+        # (only the theorems of the wanted targets: Print Assumptions walks the whole proof term, and some of the
+        # case analyses are large)
+        ax, aout = _assumptions_of(sorted({n for t in todo for n in theorems_of(t)}))
         for t in todo:
             ths = theorems_of(t)
             if ax is None or not ths or any(n not in ax for n in ths):
@@ -253,7 +283,10 @@ def settle(chk):
     note = ("decision functions %s are regenerated from the Rust source by the syn translator and proved equal to the "
             "model functions for all inputs (Properties/Gen.v); the translator reads the Rust subset correctly; usize "
             "is unbounded N (overflow out of scope); views reduce ExecutionStatuses / ExecuteStatus to the observers "
-            "listed in harness/decisions.json" % ", ".join(getattr(chk, "_gen_targets", [])))
+            "listed in harness/decisions.json; fragments of large functions (call arguments, lets, struct-literal "
+            "fields, loop tails, leading guards, call lists on a Command) are found syntactically and are functions of "
+            "the free variables declared in harness/decisions.json -- what is left out is named in the header of "
+            "coq/gen/GenDecisions.v" % ", ".join(getattr(chk, "_gen_targets", [])))
     if isinstance(chk.assumptions, list) and note not in chk.assumptions:
         chk.assumptions.append(note)
     if not pend:
